@@ -7,6 +7,10 @@ open CifModel CifModel.Model.Chars CifModel.Spec.Lexical
 
 /-! ### position arithmetic -/
 
+theorem posAfter_cons (c : Nat) (h10 : ¬ c = 10) (ht : isTrailU c = false) (r : Str) (line col : Nat) :
+    posAfter line col (c :: r) = posAfter line (col + 1) r := by
+  simp [posAfter, h10, ht]
+
 theorem posAfter_append (a b : Str) : ∀ (line col : Nat),
     posAfter line col (a ++ b) = posAfter (posAfter line col a).1 (posAfter line col a).2 b := by
   induction a with
